@@ -43,6 +43,7 @@ type Profile struct {
 	EndWeight    int    // weight of each kind of end node against 6 for menu nodes (default 1)
 	CatchLoad    bool   // the catch node may LOAD a symbol
 	BadUTF8      bool   // some results carry bytes that are not valid UTF-8
+	Refresh      bool   // nodes that render twice (… HALT; RELOAD …; HALT; INCMP …)
 	ManySyms     bool   // up to 28 external symbols, nodes that load up to 20 of them
 	Unicode      bool   // multi-byte UTF-8 in labels, translations, static template text and padded values
 	StaticSyms   bool   // some external symbols are static-load symbols with per-language entries
@@ -470,6 +471,26 @@ func Generate(t *tape.Tape, p Profile) *App {
 			code = append(code, Inst{Op: MOVE, A: postTarget(i, false)})
 		default: // KMenu
 			code = append(code, Inst{Op: HALT})
+			if p.Refresh && len(mapped) > 0 && t.Chance(1, 5) {
+				// the refresh idiom: the node renders a second time, with reloaded values, before it
+				// looks at any input (whatever the client sent in between is not consumed)
+				var again []Inst
+				for _, s := range mapped {
+					if reloadable(s) {
+						again = append(again, Inst{Op: RELOAD, A: s})
+					} else {
+						again = append(again, Inst{Op: MAP, A: s})
+					}
+				}
+				for _, in := range code {
+					switch in.Op {
+					case MOUT, MNEXT, MPREV, MSINK:
+						again = append(again, in)
+					}
+				}
+				code = append(code, again...)
+				code = append(code, Inst{Op: HALT})
+			}
 			if p.SingleRoute {
 				if t.Chance(1, 2) {
 					code = append(code, Inst{Op: INCMP, A: postTarget(i, browse), B: "*"})
